@@ -377,6 +377,9 @@ def r3_bestof(repo, report):
         if changed != want:
             bad.append(("selection", {"more": more, "same": same, "fewer_errors": fewer}, "updated" if changed else "kept"))
             continue
+        if not changed and not (vkey(r.env["best_adapter"]) == "BEST_ADAPTER" and vkey(r.env["best_e"]) == "BEST_E" and vkey(r.env["best_length"]) == "BEST_LENGTH"):
+            bad.append(("a worse candidate changes part of the best-so-far record", {k: vkey(r.env[k]) for k in ("best_adapter", "best_e", "best_m", "best_length")}))
+            continue
         if changed and not (vkey(r.env["best_adapter"]) == cand[0] and vkey(r.env["best_e"]) == cand[1].key() and vkey(r.env["best_m"]) == cand[2].key() and vkey(r.env["best_length"]) == "LENGTH"):
             bad.append(("recorded candidate", vkey(r.env["best_adapter"]), vkey(r.env["best_e"]), vkey(r.env["best_m"]), vkey(r.env["best_length"])))
     bad = [b for b in bad if "harmless" not in b[0]]
